@@ -2597,7 +2597,16 @@ impl<'de, 'e> de::Deserializer<'de> for YamlDeserializer<'de, 'e> {
 
                 if let Some(events) = self.pending_value.take() {
                     let (events, reference_location) = events;
-                    let mut replay = ReplayEvents::with_reference(events, reference_location);
+                    // Only a value that is replayed somewhere else than where it is written
+                    // (through an alias or a merge) has a use-site of its own; the nodes of
+                    // a value written in place keep their own positions.
+                    let written_in_place =
+                        events.first().map(|ev| ev.location()) == Some(reference_location);
+                    let mut replay = if written_in_place {
+                        ReplayEvents::new(events)
+                    } else {
+                        ReplayEvents::with_reference(events, reference_location)
+                    };
 
                     // Definition-site location: where the node is defined in the YAML.
                     // For aliases, this will point at the anchor definition.
